@@ -58,6 +58,12 @@ def run(ctx, report):
         findings = _nondeterminism(prog, eff, f)
         r.instance({"function": f.qualname, "sources": [x[1] for x in findings]} if findings or len(r.samples) < 3 else None)
         for node, what, key in findings:
+            if key == "unsorted-listing" and f.module.name == "schwifty.registry":
+                # the listing is not wrapped in sorted(...): decided by evaluation (virtual directory, three listing orders) whether the order matters
+                from .c18 import listing_order_independent
+                if listing_order_independent(ctx):
+                    r.instance({"function": f.qualname, "listing": "not wrapped in sorted(); evaluation on a virtual directory shows the result does not depend on listing order"})
+                    continue
             if key == "set-iteration" and f.qualname == "schwifty.registry.merge_dicts":
                 # exemption, re-checked: the set only orders the keys of the merged *dict* registry; no consumer iterates that table
                 if not _iban_table_iterated(prog, eff):
@@ -66,7 +72,7 @@ def run(ctx, report):
             r.finding(f"{f.short}:{key}", f"{f.short}: {what}; results of random generation would differ between processes / hash seeds for the same seed",
                       f"{f.module.relpath}:{node.lineno}")
     # generator construction only when the caller gave none; Rstr gets the generator
-    _generator_discipline(prog, eff, f_brand, r)
+    _generator_discipline(ctx, bban, iban, r)
     # rstr expands negated classes / non-digit categories through hash-ordered sets
     r2 = report.rule("R13-regex", floor=100, what="country patterns handed to rstr use only literals, ranges, the digit category and bounded repeats")
     table = facts.iban_table()
@@ -91,17 +97,26 @@ def run(ctx, report):
                 break
 
     # ------------------------------------------------------------------ R13-valid
-    r3 = report.rule("R13-valid", floor=2, what="IBAN.random / BBAN.random return only through the validating constructor / from_components")
-    for rt in [n for n in ast.walk(f_irand.node) if isinstance(n, ast.Return) and n.value is not None]:
-        v = rt.value
-        ok = isinstance(v, ast.Call) and isinstance(v.func, ast.Attribute) and v.func.attr == "from_bban" and \
-            not any(k.arg == "allow_invalid" and not (isinstance(k.value, ast.Constant) and k.value.value is False) for k in v.keywords) and len(v.args) <= 2
-        r3.instance({"IBAN.random returns": ast.unparse(v)[:80]})
-        if not ok:
-            r3.finding("IBAN.random:return", f"IBAN.random returns {ast.unparse(v)[:80]!r}: not the validating from_bban path", f"{f_irand.module.relpath}:{rt.lineno}")
-    for rt in [n for n in ast.walk(f_brand.node) if isinstance(n, ast.Return) and n.value is not None]:
-        v = rt.value
-        r3.instance({"BBAN.random returns": ast.unparse(v)[:80]})
+    r3 = report.rule("R13-valid", floor=6, what="whatever IBAN.random returns was built by the IBAN constructor with validation on (by evaluation)")
+    for cc in [c for c in ("BE", "DE", "PL", "NO", "FR") if c in reg.countries] + [c for c in sorted(reg.countries) if not reg.positions(c)][:1]:
+        for use_registry in (True, False):
+            outs, _ = _explore_entry(ctx, iban, iban, cc, use_registry)
+            rets = [o for o in outs if o.kind == "return"]
+            bad = None
+            for o in rets:
+                news = {e["oid"]: e for e in o.events if e["kind"] == "iban_new"}
+                e = news.get(o.value.oid) if isinstance(o.value, Obj) else None
+                if e is None:
+                    bad = bad or ("IBAN.random:return", "returns a value that did not come from the IBAN constructor")
+                    continue
+                ai = e["kwargs"].get("allow_invalid", False)
+                if ai is not False:
+                    bad = bad or ("IBAN.random:return", f"builds its result with allow_invalid={ai!r}: an invalid draw is returned instead of being rejected")
+            r3.instance({"country": cc, "registry": use_registry, "returning paths": len(rets)})
+            if not rets:
+                r3.finding(f"IBAN.random:{cc}:no-result", f"IBAN.random({cc!r}, use_registry={use_registry}) has no returning path", f_irand.where)
+            if bad:
+                r3.finding(bad[0], f"IBAN.random({cc!r}, use_registry={use_registry}) {bad[1]}", f_irand.where)
 
     # ------------------------------------------------------------------ R13-pinned
     r4 = report.rule("R13-pinned", floor=200, what="every returned BBAN carries each pinned component unchanged (zero-padded) at its published range")
@@ -353,39 +368,66 @@ def _iban_table_iterated(prog, eff):
     return False
 
 
-def _generator_discipline(prog, eff, f_brand, rule):
-    """`Random()` only under `if random is None`; Rstr receives the generator; draws go through it."""
-    gen_param = None
-    for p in f_brand.params():
-        if p == "random":
-            gen_param = p
-    a = f_brand.node.args
-    if gen_param is None and "random" in [x.arg for x in a.kwonlyargs]:
-        gen_param = "random"
-    rule.instance({"generator parameter": gen_param})
-    if gen_param is None:
-        rule.finding("BBAN.random:generator", "BBAN.random has no `random` parameter: callers cannot supply a seeded generator", f_brand.where)
-        return
-    for n in ast.walk(f_brand.node):
-        if isinstance(n, ast.Call):
-            d = prog.resolve_expr(f_brand.module, n.func) if isinstance(n.func, (ast.Name, ast.Attribute)) else None
-            if isinstance(d, tuple) and d[0] == "ext" and d[1] == "random.Random":
-                if n.args or n.keywords:
-                    continue
-                guard = _enclosing_if(f_brand.node, n)
-                ok = guard is not None and ast.unparse(guard.test).replace(" ", "") in (f"{gen_param}isNone", f"not{gen_param}")
-                rule.instance({"Random() at": n.lineno, "guard": ast.unparse(guard.test) if guard else None})
-                if not ok:
-                    rule.finding("BBAN.random:Random()", "an unseeded Random() is constructed although the caller may have supplied a generator; the result is then not reproducible",
-                                 f"{f_brand.module.relpath}:{n.lineno}")
-                else:
-                    # the assignment must rebind the generator variable
-                    pass
-            if isinstance(d, tuple) and d[0] == "ext" and d[1] == "rstr.Rstr":
-                ok = len(n.args) >= 1 and isinstance(n.args[0], ast.Name) and n.args[0].id == gen_param
-                rule.instance({"Rstr at": n.lineno, "argument": ast.unparse(n.args[0]) if n.args else None})
-                if not ok:
-                    rule.finding("BBAN.random:Rstr", "Rstr is constructed without the caller's generator: the text draw ignores the seed", f"{f_brand.module.relpath}:{n.lineno}")
+def _generator_discipline(ctx, bban, iban, rule):
+    """Every draw goes through the generator the caller supplied - decided by evaluation: BBAN.random and IBAN.random are explored with a
+    marked generator for representative countries (with / without registry, with and without a country), and every draw event on every
+    path must name that generator.  Spelling of the `random is None` fallback is irrelevant."""
+    prog = ctx.program
+    reg = ctx.registry
+    f_brand = bban.methods["random"]
+    f_irand = iban.methods["random"]
+    with_pos = [cc for cc in ("BE", "DE", "PL", "IT") if cc in reg.countries and reg.positions(cc)]
+    without = [cc for cc in sorted(reg.countries) if not reg.positions(cc)][:1]
+    cases = [(cc, ur) for cc in with_pos + without for ur in (True, False)] + [("", True)]
+    for cc, use_registry in cases:
+        for entry, cls, fn in (("BBAN.random", bban, f_brand), ("IBAN.random", iban, f_irand)):
+            outs, _ = _explore_entry(ctx, cls, iban, cc, use_registry)
+            foreign = {}
+            draws = 0
+            for o in outs:
+                for e in o.events:
+                    if e["kind"] == "random_draw":
+                        draws += 1
+                        if getattr(e["gen"], "origin", None) != "caller":
+                            foreign.setdefault(ctx_where(prog, e), e)
+            rule.instance({"entry": entry, "country": cc or None, "registry": use_registry, "paths": len(outs), "draws": draws, "foreign draws": len(foreign)}
+                          if (cc in ("BE", "") or foreign) else None)
+            for where_, e in foreign.items():
+                g = e["gen"]
+                how = "a generator constructed inside the library" if g is not None else "the process-wide / default generator"
+                rule.finding(f"{entry}:foreign-draw:{e['op']}", f"{entry}({cc!r}, random=<caller's generator>, use_registry={use_registry}): the {e['op']} draw at {where_} uses {how}, "
+                             "not the caller's generator: equal seeds no longer give equal results", where_)
+            if not draws and any(o.kind == "return" for o in outs):
+                rule.finding(f"{entry}:no-draw", f"{entry}({cc!r}) returns without drawing from the caller's generator", fn.where)
+
+
+def ctx_where(prog, e):
+    n = e.get("node")
+    return e.get("where") or (f"line {getattr(n, 'lineno', '?')}")
+
+
+def _explore_entry(ctx, cls, iban, cc, use_registry, pinned=None):
+    """Explore <cls>.random(cc, random=<marked generator>, ...); the IBAN constructor is replaced by a recorder."""
+    it = ctx.facts.interp(max_paths=6000)
+    it.no_split = 1
+    it.retry_loop_cap = 2
+    it.dedupe_sites = True
+    it.choice_reps = choice_reps
+    made = []
+
+    def new_iban(it_, args, kwargs, node):
+        o = Obj(iban)
+        it_.event("iban_new", oid=o.oid, args=list(args), kwargs=dict(kwargs))
+        return o
+
+    it.intrinsics["new:" + iban.qualname] = new_iban
+    gen = ops.RandVal(True, origin="caller")
+    try:
+        outs = [o for o in it.explore(lambda: it.call(it.getattr(ClsRef(cls), "random"), [cc], dict(random=gen, use_registry=use_registry, **(pinned or {}))))
+                if o.kind != "infeasible"]
+    except (CannotEvaluate, PathLimit) as e:
+        raise AnalysisError(f"cannot evaluate {cls.short}.random({cc!r}): {e}")
+    return outs, made
 
 
 def _enclosing_if(fn, target):
